@@ -1,5 +1,6 @@
 (* Eco/Mattermost/Version.v — model of pkg/ecosystem/mattermost/version.go (definitions only). *)
 From Verif.Base Require Import Bytes GoNum.
+From Verif.Gen Require Tables.
 From Verif.Eco Require Import VLayer.
 Local Open Scope N_scope.
 
@@ -83,8 +84,9 @@ Definition precedenceESR : Z := 2.
 Definition precedenceUnknown : Z := 99.
 
 (* getQualifierPrecedence *)
+(* generated from the Go source on every run (tools/gen -> Gen/Tables.v) *)
 Definition qualifier_precedence_table : list (bytes * Z) :=
-  [($"rc", precedenceRC); ($"esr", precedenceESR)].
+  Eval cbv delta [Verif.Gen.Tables.mattermost_getQualifierPrecedence] in Verif.Gen.Tables.mattermost_getQualifierPrecedence.
 
 Definition qualifier_precedence (q : bytes) : Z :=
   match lookup q qualifier_precedence_table with
